@@ -248,7 +248,13 @@ type verifWorld struct {
 }
 
 func verifPathNameRev(p string) (string, int) {
-	rev, _ := strconv.Atoi(filepath.Base(p))
+	b := filepath.Base(p)
+	rev, _ := strconv.Atoi(b)
+	if strings.HasPrefix(b, "x") {
+		// local revisions (x1, x2, ...) are the negative ones
+		n, _ := strconv.Atoi(b[1:])
+		rev = -n
+	}
 	return filepath.Base(filepath.Dir(p)), rev
 }
 
@@ -519,6 +525,20 @@ func verifBodyHistory(s *verifEngC, gc *check.C) {
 			nextRev++
 			ts, err = snapstate.Install(nil, st, verifSnapName, &snapstate.RevisionOptions{Revision: snap.R(target)}, s.user.ID, snapstate.Flags{})
 			desc, kind = fmt.Sprintf("install rev %d", target), "install"
+		case op <= 1 && !bootSnap && (c.Active("C12") || c.Active("C11")) && c.Draw("from-a-local-directory", 4) == 3:
+			// a new revision that comes from a local directory (snap try), not the store
+			target = -1
+			for _, r := range bseq {
+				if r <= target {
+					target = r - 1
+				}
+			}
+			dir := filepath.Join(dirs.GlobalRootDir, fmt.Sprintf("verif-try-%d", i))
+			os.MkdirAll(filepath.Join(dir, "meta"), 0755)
+			os.WriteFile(filepath.Join(dir, "meta", "snap.yaml"), []byte("name: "+verifSnapName+"\nversion: 1.0\nepoch: 1*\n"), 0644)
+			ts, err = snapstate.TryPath(st, verifSnapName, dir, snapstate.Flags{})
+			desc, kind = fmt.Sprintf("refresh to new local rev %d (snap try)", target), "refresh"
+			c.Count("probe:refresh-from-a-local-directory")
 		case op <= 1: // refresh to a new revision, maybe switching channel
 			target = nextRev
 			nextRev++
